@@ -32,6 +32,7 @@ type WaitCase struct {
 	Route   string `json:"route,omitempty"`    // func / batch kinds: "" all builder methods; "opt-wait" wait through the constructor option, budget through the builder; "opt-all" both through options
 	CtxFar  bool   `json:"ctx_far,omitempty"` // the context also carries a deadline two hours away (explicit cancellation must still interrupt the wait)
 	DeadlineMs int `json:"deadline_ms,omitempty"` // > 0 (with Cancel = 1): nobody calls cancel — the context's own deadline, this many ms away, expires while the item sits in its hour-long wait
+	WaitInPrep bool `json:"wait_in_prep,omitempty"` // func kind: the node is built without a wait; its prep function configures the wait (builder method) before it returns
 	CtxNearMs int `json:"ctx_near_ms,omitempty"` // with Cancel: the context also carries a deadline this many ms away — BEFORE the end of the hour-long wait, but long after the explicit cancel(): the error is still the context's (Canceled)
 	ErrKind string `json:"err_kind,omitempty"` // "ctx-timeout" / "ctx-canceled": failing attempts return an error that wraps context.DeadlineExceeded / context.Canceled although the run's context is alive (a per-attempt timeout)
 	PreWaitNs int64 `json:"pre_wait_ns,omitempty"` // > 0: the node is first built with THIS wait and run once; then the wait is re-configured (builder method) to WaitNs and the measured run follows
@@ -51,6 +52,12 @@ type waitNodeOverride struct {
 
 func (n *waitNodeOverride) GetMaxRetries() int     { return n.n }
 func (n *waitNodeOverride) GetWait() time.Duration { return n.wait }
+
+// retryAfterErr carries a back-off hint of its own (like an HTTP 429 error would): the configured wait still is the lower bound.
+type retryAfterErr struct{ d time.Duration }
+
+func (e retryAfterErr) Error() string             { return "rate limited" }
+func (e retryAfterErr) RetryAfter() time.Duration { return e.d }
 
 type waitNodeFB struct{ waitNode }
 
@@ -91,6 +98,8 @@ func (w *waitRun) exec(ctx context.Context, item int) (any, error) {
 			err = fmt.Errorf("attempt %d of item %d: per-attempt timeout: %w", a, item, context.DeadlineExceeded)
 		case "ctx-canceled":
 			err = fmt.Errorf("attempt %d of item %d: sub-operation cancelled: %w", a, item, context.Canceled)
+		case "retry-after":
+			err = fmt.Errorf("attempt %d of item %d: %w", a, item, retryAfterErr{time.Millisecond})
 		}
 		if w.cs.ExecUs > 0 {
 			time.Sleep(time.Duration(w.cs.ExecUs) * time.Microsecond)
@@ -188,8 +197,18 @@ func runWaitCase(cs *WaitCase) (*waitObs, []finding) {
 		case "opt-all":
 			nb = flyt.NewNode(flyt.WithWait(wait), flyt.WithMaxRetries(cs.N))
 		}
+		if cs.WaitInPrep {
+			nb = flyt.NewNode().WithMaxRetries(cs.N)
+		}
+		nbRef := nb
 		nb = nb.
-			WithPrepFuncAny(func(ctx context.Context, s *flyt.SharedStore) (any, error) { w.prepEnd = time.Now(); return 0, nil }).
+			WithPrepFuncAny(func(ctx context.Context, s *flyt.SharedStore) (any, error) {
+				if cs.WaitInPrep {
+					nbRef.WithWait(wait) // the last setting before the attempts start
+				}
+				w.prepEnd = time.Now()
+				return 0, nil
+			}).
 			WithExecFuncAny(func(ctx context.Context, v any) (any, error) { return w.exec(ctx, 0) })
 		if cs.FB {
 			nb = nb.WithExecFallbackFunc(func(any, error) (any, error) { return "rescued", nil })
@@ -410,6 +429,14 @@ func runC20(c *Cfg) {
 				}
 			}
 		}
+	}
+	for _, w := range waits[1:3] {
+		cases = append(cases, &WaitCase{Family: "lower-bound-wait-set-in-prep", Kind: "func", WaitNs: int64(w), N: 3, K: 3, WaitInPrep: true})
+		cases = append(cases, &WaitCase{Family: "lower-bound-wait-set-in-prep", Kind: "func", WaitNs: int64(w), N: 2, K: 3, WaitInPrep: true, FB: true})
+		for _, kind := range []string{"struct", "func", "batch"} { // errors that carry a (shorter) back-off hint of their own
+			cases = append(cases, &WaitCase{Family: "lower-bound-retry-after-errors", Kind: kind, WaitNs: int64(w), N: 3, K: 4, C: 2, Items: 3, ErrKind: "retry-after"})
+		}
+		cases = append(cases, &WaitCase{Family: "lower-bound-retry-after-errors", Kind: "batch", WaitNs: int64(w), N: 2, K: 3, C: 0, Items: 2, ErrKind: "retry-after"})
 	}
 	for _, w := range waits[:3] { // nodes that bring their own GetWait / GetMaxRetries (the embedded BaseNode says: no wait, one attempt)
 		for n := 2; n <= 3; n++ {
